@@ -14,7 +14,7 @@ def lower_entries(ctx):
             out.append(('cachedir.' + ('temp_cleanup' if 'meta_times' not in ctx.cg.effects(k) else 'maintain'), k, 'full'))
     # the public mechanism layer is an entry point in its own right
     for p in ('raw_cache::prune', 'raw_cache::insert_or_update', 'raw_cache::insert_or_touch', 'raw_cache::touch'):
-        out.append((p, ctx.key_of(p), 'full'))
+        out.append((p, ctx.helper(p), 'full'))
     for p in ('sharded::Cache::get', 'sharded::Cache::set', 'sharded::Cache::put', 'sharded::Cache::touch', 'sharded::Cache::temp_dir'):
         out.append((p, ctx.key_of(p), 'full'))
     return out
